@@ -11,7 +11,8 @@ from vf.gen.edit import edit_strategy, build_with_history, warm_all
 
 IMG = GL.Profile(max_surfs=6, shapes=['standard', 'standard', 'even_asphere'], allow_mirror=False, keep_edges=True,
                  rho_min=2.5, steep_prob=0.0, ap_types=['EPD', 'imageFNO', 'objectNA'], max_field_deg=10.0,
-                 allow_vignetting=False, max_n=2.0, zero_thickness=False, image_refracts=False, positive_power=True, curved_image=True)
+                 allow_vignetting=False, max_n=2.0, zero_thickness=False, image_refracts=False, positive_power=True, curved_image=True,
+                 negative_fields=True, object_medium=True)
 
 DISTS = ['hexapolar', 'uniform', 'cross', 'ring', 'line_y', 'gq', 'gq_sym']
 
